@@ -2,33 +2,67 @@
 
     (element symbol, mass number or 0 for the natural element, charge, own)
 
-`own` is True for D and T: isotopes of hydrogen that are written with a symbol of their own.
+`own` is True for D and T (hydrogen-2 and hydrogen-3 in every spelling: D, H[2], D{+}, H[2]{+}, T,
+H[3], T{+}): isotopes of hydrogen that are written with a symbol of their own.
 
 The statement orders: carbon first, hydrogen second, every other atom alphabetically by symbol,
-isotopes of one element by mass number.  `must_precede(x, y)` returns the name of the rule that
-forces x to be listed before y, or None where the statement leaves the pair unordered:
-  * different charge states of one nuclide (Fe{2+} / Fe{3+}, C / C{4+}, Cl / Cl{-}),
-  * the natural element against one of its isotopes (O / O[16]) - "by mass number" orders the
-    isotopes among themselves, the natural element has no mass number,
-  * any pair involving D or T - "alphabetically by symbol" (symbol 'D') and "hydrogen second /
-    isotopes of one element by mass number" (D is hydrogen-2) place them differently.
-For unordered pairs only canonicity is required (checked by the caller)."""
+isotopes of one element by mass number.  "By symbol" is taken literally: the symbol of an atom is
+what it is written with (`written(d)`), so D and T are neither carbon (symbol C) nor hydrogen
+(symbol H) but "other atoms", placed alphabetically under 'D' and 'T':
+
+    C... , H... , then  B < Ca < Cl < D < Dy < He < O < T < Ta < U
+
+(the unchanged library agrees: `CH3D`, `HDO`, `CaD2`, `OT2`, `H{+}D{+}O{2-}` are their own Hill
+forms).  `must_precede(x, y)` returns the name of the rule that forces x to be listed before y, or
+None where the statement leaves the pair unordered:
+  * different charge states of one nuclide (Fe{2+} / Fe{3+}, C / C{4+}, Cl / Cl{-}, D / D{+}),
+  * the natural element against one of its isotopes (O / O[16], H / H[1]) - "by mass number" orders
+    the isotopes among themselves, the natural element has no mass number.
+For unordered pairs only canonicity is required (checked by the caller).
+
+Rules that involve D or T have names of their own, because a reader who takes D for hydrogen-2
+("hydrogen second, isotopes by mass number": C, H, D, T, rest) would agree with two of them and
+not with the third:
+    carbon-and-hydrogen-before-D-T    C*, H* before D*, T*          (both readings)
+    D-before-T                        D* before T*                  (both readings)
+    D-T-alphabetical-by-own-symbol    B, Ca, Cl < D < Dy, He, ... < T < Ta, U   (symbol reading)
+The third is therefore NOT judged: a D/T atom and an atom with another symbol form an unordered pair."""
+
+
+def written(d):
+    """The symbol the atom is written with."""
+    if d[3]:
+        if d[0] != "H" or d[1] not in (2, 3):
+            raise ValueError("own symbol for %r" % (d,))
+        return "D" if d[1] == 2 else "T"
+    return d[0]
 
 
 def group(d):
-    return 0 if d[0] == "C" else 1 if d[0] == "H" else 2
+    w = written(d)
+    return 0 if w == "C" else 1 if w == "H" else 2
 
 
 def must_precede(x, y):
-    if x[3] or y[3]:
-        return None
     gx, gy = group(x), group(y)
+    wx, wy = written(x), written(y)
     if gx != gy:
         if gx < gy:
+            if y[3]:
+                return "carbon-and-hydrogen-before-D-T"
             return "carbon-first" if gx == 0 else "hydrogen-second"
         return None
-    if x[0] != y[0]:
-        return "alphabetical-by-symbol" if x[0] < y[0] else None
+    if wx != wy:
+        if not wx < wy:
+            return None
+        if x[3] and y[3]:
+            return "D-before-T"
+        if x[3] or y[3]:
+            # D / T against another symbol: "alphabetically by symbol" files them under 'D' / 'T', the reading
+            # "D is hydrogen-2" files them right after H.  The statement does not decide, so the pair is
+            # unordered (canonicity only); C and H before D and T, and D before T, hold under both readings.
+            return None
+        return "alphabetical-by-symbol"
     if x[1] and y[1] and x[1] != y[1]:
         return "isotopes-by-mass-number" if x[1] < y[1] else None
     return None
@@ -47,10 +81,10 @@ def order_violation(seq):
 
 def pair_class(x, y):
     """Why two different atoms may legitimately / illegitimately swap: class of the pair."""
-    if x[3] or y[3]:
-        return "D-T-placement"
     if x[0] == y[0] and x[1] == y[1] and x[2] != y[2]:
         return "charge-states-of-one-nuclide"
+    if x[3] or y[3]:
+        return "D-T-placement"
     if x[0] == y[0] and (x[1] == 0) != (y[1] == 0):
         return "natural-vs-isotope"
     if x[0] == y[0]:
